@@ -925,6 +925,48 @@ theorem step_preserves (ks : List Schema) (body : List Data) (op : Op) (hop : op
       have hm : conforms s (merge s d (emptyOf s)) = true := conforms_merge s d _ hop.1 (conforms_emptyOf s)
       have hum : uniqueKeys (merge s d (emptyOf s)) = true := uniqueKeys_merge s d _ hop.2 (uniqueKeys_emptyOf s)
       exact ⟨conformsBody_set ks body i s _ hi hm hc, uniqueKeysBody_set body i _ hum hu⟩
+  | replaceRow i k b =>
+    simp only [Op.wf] at hop
+    simp only [step, replaceRow]
+    cases hi : ks[i]? with
+    | none => simp [hi] at hop
+    | some s =>
+      cases s with
+      | leaf _ => simp [hi] at hop
+      | cont _ => simp [hi] at hop
+      | list n lks =>
+        simp only [hi, Bool.and_eq_true] at hop
+        cases hd : body[i]? with
+        | none => exact ⟨hc, hu⟩
+        | some d =>
+          cases d with
+          | leaf _ => exact ⟨hc, hu⟩
+          | cont _ => exact ⟨hc, hu⟩
+          | list rows =>
+            have hcd := conformsBody_get ks body i _ _ hi hd hc
+            simp only [conforms] at hcd
+            have hud := uniqueKeysBody_get body i _ hd hu
+            simp only [uniqueKeys, Bool.and_eq_true, decide_eq_true_eq] at hud
+            have hc0 := conformsRows_removeRow lks k rows hcd
+            have hn0 := keysOf_removeRow_nodup k rows hud.1
+            have hu0 := uniqueKeysRows_removeRow k rows hud.2
+            have hk : k ∉ keysOf (removeRow k rows) :=
+              not_mem_of_findRow_none k _ (findRow_removeRow_self k rows hud.1)
+            have hins := editRows_insert lks (fun ds h1 => editKids_upsert_new lks ds h1) [(k, b)] (removeRow k rows)
+              (by simp [conformsRows, hop.1]) (by intro k' hk'; simp [keysOf] at hk'; subst hk'; exact hk)
+              (by simp [keysOf])
+            simp only [hins]
+            have hcm : conformsRows lks (mergeRows lks [(k, b)] (removeRow k rows)) = true :=
+              conformsRows_mergeRows lks (fun ds ts h1 h2 => conformsBody_mergeKids lks ds ts h1 h2) _ _
+                (by simp [conformsRows, hop.1]) hc0
+            have hnm := keysOf_mergeRows_nodup lks [(k, b)] (removeRow k rows) hn0
+            have hum : uniqueKeysRows (mergeRows lks [(k, b)] (removeRow k rows)) = true :=
+              uniqueKeysRows_mergeRows lks (fun ds ts h1 h2 => uniqueKeysBody_mergeKids lks ds ts h1 h2) _ _
+                (by simp [uniqueKeysRows, hop.2]) hu0
+            have hu' : uniqueKeys (.list (mergeRows lks [(k, b)] (removeRow k rows))) = true := by
+              simp only [uniqueKeys, Bool.and_eq_true, decide_eq_true_eq]; exact ⟨hnm, hum⟩
+            exact ⟨conformsBody_set ks body i (.list n lks) _ hi (by simpa [conforms] using hcm) hc,
+              uniqueKeysBody_set body i _ hu' hu⟩
 
 /-- lifted to every history -/
 theorem history_preserves (ks : List Schema) : ∀ (ops : List Op) (body : List Data),
